@@ -116,9 +116,14 @@ def start_wavefront(lentil, t):
     return w * p
 
 
+SHARED = {}          # plane objects reused across programs (the same Tilt meets pupil, image and none wavefronts)
+
+
 def run_program(lentil, prog):
     """returns list of discrepancies (step index, what, expected, observed)"""
+    import copy
     out = []
+    salt = sum(len(s['arg']) for s in prog)
     try:
         w = start_wavefront(lentil, prog[0]['arg'])
     except Exception as e:   # the sampled start plane could not be applied
@@ -130,14 +135,25 @@ def run_program(lentil, prog):
         plane = None
         try:
             if act == 'Propagate':
+                if (salt + i) % 3 == 0:
+                    w = copy.deepcopy(w)
                 before = (digest_obj(w),)
                 if arg == 'dft':
                     r = lentil.propagate_dft(w, pixelscale=1.0, shape=N, oversample=1)
                 else:
                     r = lentil.propagate_fft(w, pixelscale=1.0, shape=N, oversample=1)
             else:
-                plane = make_plane(lentil, act, arg)
+                if (salt + i) % 3 == 0:
+                    # a wavefront that is EQUAL to w but shares no object with it (type objects included)
+                    w = copy.deepcopy(w)
+                if (salt + i) % 2 == 0 and arg not in ('Rotate', 'Flip'):
+                    plane = SHARED.get((act, arg))
+                    if plane is None:
+                        plane = SHARED[(act, arg)] = make_plane(lentil, act, arg)
+                else:
+                    plane = make_plane(lentil, act, arg)
                 if exp == 'TypeError' and (i + len(prog)) % 2 == 0:
+                    plane = make_plane(lentil, act, arg)
                     # the type rule decides even when something else is wrong as well (here: an inconsistent pixel scale)
                     plane._pixelscale = (3.0, 3.0)
                 before = (digest_obj(w), digest_obj(plane))
